@@ -313,6 +313,26 @@ fn main() {
                     }
                     let free_clock = emit::clock().now().map(|t| t.to_unix().as_secs());
                     let free_ctxt = emit::ctxt().with_current(|p| p.pull::<u32, _>("ctxt_tag"));
+                    // the other two accessors: the rng is tagged, the filter counts its consultations
+                    if let (Some(c), Some(r)) = (free_clock, emit::rng().gen_u64()) {
+                        // (the rng read comes after the clock read: once the clock is the winner's, so is the rng)
+                        if (r & 0xff) as u64 != c - 1000 {
+                            shared.violations.lock().unwrap().push(format!(
+                                "torn_configuration observer {j} round {round}: emit::clock() belongs to configuration {} and emit::rng() to {}", c - 1000, r & 0xff
+                            ));
+                        }
+                    }
+                    if let Some(c) = free_clock {
+                        let w = (c - 1000) as usize;
+                        let before = shared.filter_calls[w].load(Ordering::SeqCst);
+                        let probe = emit::Event::new(emit::path!("probe"), emit::Template::literal("probe"), emit::Empty, emit::Empty);
+                        let _ = emit::filter().matches(&probe);
+                        if shared.filter_calls[w].load(Ordering::SeqCst) == before {
+                            shared.violations.lock().unwrap().push(format!(
+                                "torn_configuration observer {j} round {round}: emit::clock() belongs to configuration {w}, but emit::filter() did not consult that configuration's filter"
+                            ));
+                        }
+                    }
                     if let (Some(c), Some(x)) = (free_clock, free_ctxt) {
                         if c != 1000 + x as u64 {
                             shared.violations.lock().unwrap().push(format!(
